@@ -211,6 +211,12 @@ pub fn c05(rng: &mut Rng, thorough: bool) -> Scenario {
     let mut live = Live::default();
     let mut cfg = gen_cfg(rng);
     cfg.rollback = false;
+    if rng.chance(1, 5) {
+        cfg.ht = *rng.pick(&[96u32, 128, 192, 256]);
+        ops.push(Op::Open(cfg.clone()));
+        tombstone_history(rng, &mut ops, &mut ids, &mut live, &cfg);
+        return Scenario { ops, label: format!("c05 tombstones ht={}", cfg.ht) };
+    }
     if rng.chance(1, 3) {
         cfg.ht = 2048;
     }
@@ -382,12 +388,61 @@ pub fn c09(rng: &mut Rng, thorough: bool) -> Scenario {
     Scenario { ops, label: format!("c09 ml={} steps={}", cfg.max_len, steps) }
 }
 
+/// tiny hash table, one stored page per root child, whole sub-tries deleted again (tombstones on
+/// other pages' probe paths), then a cold reopen: every page must still be found
+fn tombstone_history(rng: &mut Rng, ops: &mut Vec<Op>, ids: &mut Ids, live: &mut Live, cfg: &Cfg) {
+    let mut by_child: Vec<Vec<Key>> = vec![vec![]; 64];
+    for c in 0..64usize {
+        for _ in 0..rng.range(1, 3) {
+            let mut k = rng.key();
+            k[0] = ((c as u8) << 2) | (k[0] & 3);
+            by_child[c].push(k);
+        }
+    }
+    let (mut a, mut b): (Vec<(Key, Acc)>, Vec<(Key, Acc)>) = (vec![], vec![]);
+    for c in 0..64 {
+        for k in &by_child[c] {
+            let e = (*k, Acc::Write(Some(gen_value(rng, ValueMix::Small))));
+            if c % 2 == 0 { a.push(e) } else { b.push(e) }
+        }
+    }
+    a.sort_by(|x, y| x.0.cmp(&y.0));
+    b.sort_by(|x, y| x.0.cmp(&y.0));
+    live.apply(&a);
+    ops.extend(commit_ops(ids.s(), ids.c(), a.clone(), false));
+    live.apply(&b);
+    ops.extend(commit_ops(ids.s(), ids.c(), b, false));
+    // delete every key of the first group: their pages are released
+    let del: Vec<(Key, Acc)> = a.iter().map(|(k, _)| (*k, Acc::Write(None))).collect();
+    live.apply(&del);
+    ops.extend(commit_ops(ids.s(), ids.c(), del, false));
+    ops.push(Op::CheckAll { proofs: 200 });
+    ops.push(Op::Close);
+    let mut c2 = cfg.clone();
+    c2.pc = 1;
+    c2.prepop = rng.chance(1, 2);
+    ops.push(Op::Open(c2));
+    ops.push(Op::CheckAll { proofs: 200 });
+    // and the store keeps working
+    let more: Vec<(Key, Acc)> = live.map.keys().take(8).map(|k| (*k, Acc::Write(Some(gen_value(rng, ValueMix::Small))))).collect();
+    live.apply(&more);
+    ops.extend(commit_ops(ids.s(), ids.c(), more, false));
+    ops.push(Op::CheckAll { proofs: 50 });
+}
+
 pub fn c10(rng: &mut Rng, thorough: bool) -> Scenario {
     let mut ops = Vec::new();
     let mut ids = Ids::new();
     let mut kg = KeyGen::new(rng);
     let mut live = Live::default();
     let mut cfg = gen_cfg(rng);
+    if rng.chance(1, 3) {
+        cfg.rollback = false;
+        cfg.ht = *rng.pick(&[96u32, 128, 192, 256]);
+        ops.push(Op::Open(cfg.clone()));
+        tombstone_history(rng, &mut ops, &mut ids, &mut live, &cfg);
+        return Scenario { ops, label: format!("c10 tombstones ht={}", cfg.ht) };
+    }
     cfg.rollback = rng.chance(2, 3);
     cfg.max_len = *rng.pick(&[2u32, 3, 100]);
     cfg.ht = *rng.pick(&[1024u32, 4096, 64000]);
@@ -457,6 +512,42 @@ pub fn c11(rng: &mut Rng, thorough: bool) -> Scenario {
     let mut ovs: Vec<Ov> = Vec::new();
     let mut marker: Option<u32> = None;
     let mut rb_depth = 1usize;
+    if cfg.rollback && rng.chance(1, 2) {
+        // a chain A <- B where B blindly rewrites keys that A deleted (and deletes keys A wrote), committed
+        // in order, then rolled back one commit at a time: the rollback history of a chain must equal the
+        // one of direct commits
+        let existing: Vec<Key> = base.map.keys().copied().collect();
+        if existing.len() >= 2 {
+            let n = (existing.len() / 2).min(6).max(1);
+            let mut a: Vec<(Key, Acc)> = existing.iter().take(n).map(|k| (*k, Acc::Write(None))).collect();
+            let fresh: Vec<Key> = (0..3).map(|_| kg.key(rng)).collect();
+            for k in &fresh {
+                a.push((*k, Acc::Write(Some(gen_value(rng, ValueMix::Small)))));
+            }
+            a.sort_by(|x, y| x.0.cmp(&y.0));
+            a.dedup_by(|x, y| x.0 == y.0);
+            let mut b: Vec<(Key, Acc)> = existing.iter().take(n).step_by(2).map(|k| (*k, Acc::Write(Some(gen_value(rng, ValueMix::Small))))).collect();
+            b.push((fresh[0], Acc::Write(None)));
+            b.push((fresh[1], Acc::Write(Some(gen_value(rng, ValueMix::Small)))));
+            b.sort_by(|x, y| x.0.cmp(&y.0));
+            b.dedup_by(|x, y| x.0 == y.0);
+            let (sa, ca, sb, cb) = (ids.s(), ids.c(), ids.s(), ids.c());
+            ops.push(Op::Begin { s: sa, chain: vec![], witness: false });
+            ops.push(Op::Finish { s: sa, c: ca, batch: a.clone() });
+            ops.push(Op::Overlay { c: ca });
+            ops.push(Op::Begin { s: sb, chain: vec![ca], witness: false });
+            ops.push(Op::Finish { s: sb, c: cb, batch: b.clone() });
+            ops.push(Op::Overlay { c: cb });
+            ops.push(Op::Commit { c: ca, nb: false });
+            ops.push(Op::Commit { c: cb, nb: false });
+            ops.push(Op::CheckAll { proofs: 2 });
+            ops.push(Op::Rollback(1));
+            ops.push(Op::CheckAll { proofs: 2 });
+            ops.push(Op::Rollback(1));
+            ops.push(Op::CheckAll { proofs: 2 });
+            rb_depth = 1;
+        }
+    }
     let steps = rng.range(4, if thorough { 30 } else { 14 });
     // chain of held, uncommitted ancestors starting at o (nearest first); None if a needed one is gone
     fn chain_of(ovs: &[Ov], o: u32) -> (Vec<u32>, bool) {
@@ -729,6 +820,33 @@ pub fn c13_history(rng: &mut Rng, thorough: bool) -> Vec<Op> {
     ops
 }
 
+/// a b-tree much larger than the smallest leaf cache (1 MiB = 32 shards of 8 leaves), rewritten
+/// completely several times: leaf page numbers freed by one commit are reused two commits later,
+/// so every cache keyed by page number must be refreshed by the writes
+pub fn c13_big_history(rng: &mut Rng, thorough: bool) -> Vec<Op> {
+    let mut ops = Vec::new();
+    let mut ids = Ids::new();
+    let n = rng.range(1100, if thorough { 2400 } else { 1500 }) as usize;
+    let mut keys: Vec<Key> = (0..n).map(|_| rng.key()).collect();
+    keys.sort();
+    keys.dedup();
+    let rounds = rng.range(4, if thorough { 8 } else { 5 });
+    for j in 0..rounds {
+        let mut batch: Vec<(Key, Acc)> = Vec::new();
+        for k in &keys {
+            if j == 0 || rng.chance(9, 10) {
+                batch.push((*k, Acc::Write(Some((rng.range(700, 1200) as usize, rng.next() % 1_000_000)))));
+            }
+        }
+        let (s, c) = (ids.s(), ids.c());
+        ops.push(Op::Begin { s, chain: vec![], witness: false });
+        ops.push(Op::Finish { s, c, batch });
+        ops.push(Op::Commit { c, nb: false });
+        ops.push(Op::CheckAll { proofs: 4 });
+    }
+    ops
+}
+
 pub fn c13_cfgs(rng: &mut Rng, n: usize) -> Vec<Cfg> {
     let mut v = Vec::new();
     for i in 0..n {
@@ -754,14 +872,31 @@ pub fn generate(prop: &str, rng: &mut Rng, thorough: bool) -> Vec<Scenario> {
         "C12" => vec![c12(rng, thorough)],
         "C13" => {
             let h = c13_history(rng, thorough);
-            c13_cfgs(rng, if thorough { 8 } else { 4 })
+            let mut v: Vec<Scenario> = c13_cfgs(rng, if thorough { 8 } else { 4 })
                 .into_iter()
                 .map(|c| {
                     let mut ops = vec![Op::Open(c.clone())];
                     ops.extend(h.iter().cloned());
                     Scenario { ops, label: format!("c13 {}", c.to_line()) }
                 })
-                .collect()
+                .collect();
+            // every fourth history (every second in the thorough tier): the large-tree flavour
+            // under the smallest caches
+            if rng.chance(1, if thorough { 2 } else { 4 }) {
+                let hb = c13_big_history(rng, thorough);
+                for cc in [1usize, *rng.pick(&[2usize, 4, 8])] {
+                    let mut c = gen_cfg(rng);
+                    c.cc = cc;
+                    c.lc = 1;
+                    c.pc = *rng.pick(&[1usize, 2]);
+                    c.ht = 64000;
+                    c.rollback = cc == 1;
+                    let mut ops = vec![Op::Open(c.clone())];
+                    ops.extend(hb.iter().cloned());
+                    v.push(Scenario { ops, label: format!("c13big {}", c.to_line()) });
+                }
+            }
+            v
         }
         _ => panic!("no sys scenarios for {}", prop),
     }
